@@ -655,6 +655,31 @@ func Template(kind int, seed int64, cfg *Config) *Program {
 				{Callee: "MK", Map: true, Volatile: g.pct(50), Binds: []Binding{{Id: "x", Exp: ref("GENI", "arr"), Split: true}}},
 			}}
 		switch fk {
+		case 12:
+			// (outside the rotation of NFileTemplates; C04 asks for it by number)
+			// files whose paths travel in plain strings: MKP's outputs are a
+			// string, a string array, a typed map of strings and a struct of
+			// strings, no file-typed output at all; two successive readers, the
+			// second one starting only after the first has finished
+			ls := &Struct{Name: "LABELS", Fields: []Param{{Name: "where", Type: TString}, {Name: "also", Type: ArrayOf(TString)}, {Name: "bykey", Type: TMapOf(TString)}}}
+			p.Structs = append(p.Structs, ls)
+			tls := &Type{Kind: KStruct, Name: "LABELS"}
+			mkp := src(&Stage{Name: "MKP", Ins: []Param{{Name: "x", Type: TInt}},
+				Outs: []Param{{Name: "sp", Type: TString}, {Name: "sps", Type: ArrayOf(TString)}, {Name: "ls", Type: tls}}})
+			consp := src(&Stage{Name: "CONSP", Ins: []Param{{Name: "sp", Type: TString}, {Name: "sps", Type: ArrayOf(TString)}, {Name: "ls", Type: tls}, {Name: "w", Type: TInt}},
+				Outs: []Param{{Name: "y", Type: TInt}}})
+			p.Stages = []*Stage{geni, mkp, consp}
+			binds := func(w *Exp, split bool) []Binding {
+				return []Binding{{Id: "sp", Exp: ref("MKP", "sp"), Split: true}, {Id: "sps", Exp: ref("MKP", "sps"), Split: true},
+					{Id: "ls", Exp: ref("MKP", "ls"), Split: true}, {Id: "w", Exp: w, Split: split}}
+			}
+			top.Calls = []*Call{top.Calls[0],
+				{Callee: "MKP", Map: true, Volatile: true, Binds: []Binding{{Id: "x", Exp: ref("GENI", "arr"), Split: true}}},
+				{Callee: "CONSP", Alias: "FIRST", Map: true, Binds: binds(lit(s2), false)},
+				{Callee: "CONSP", Alias: "SECOND", Map: true, Binds: binds(ref("FIRST", "y"), true)},
+			}
+			top.Outs = []Param{{Name: "y", Type: wrap(TInt)}}
+			top.Ret = []Binding{{Id: "y", Exp: ref("SECOND", "y")}}
 		case 11:
 			// structs whose string / untyped map members come before their first
 			// file member (and the same members the other way round), returned at
